@@ -1,0 +1,17 @@
+//go:build verif
+
+// Contracts for the deductive verifier in /verif (comment-only; compiled only with -tags verif).
+package types
+
+// What an accepted service parameter set guarantees (C16, C07).
+//@ define paramsOK(p) = p.MaxRequestTimeout > 0 && p.MinDepositMultiple > 0
+//@      && !isnil(p.SlashFraction) && raw(p.SlashFraction) >= 0 && raw(p.SlashFraction) <= DEC_ONE
+//@      && !isnil(p.ServiceFeeTax) && raw(p.ServiceFeeTax) >= 0 && raw(p.ServiceFeeTax) < DEC_ONE
+//@      && p.ComplaintRetrospect > 0 && p.ArbitrationTimeLimit > 0 && p.TxSizeLimit > 0
+//@      && ufb("denom_valid", p.BaseDenom) && ufb("coins_valid", p.MinDeposit)
+
+//@ func Params.Validate
+//@   property C16
+//@   returns err
+//@   ensures valid: err == nil ==> paramsOK(p)
+//@ end
